@@ -460,7 +460,7 @@ Proof.
         destruct (cs_evict _ _ _ _); reflexivity. }
       cbv zeta. destruct (data_matches _ _ _); cbn; exact C. }
     destruct (data_token (d_tok d)) as [[th tk]|]; [|rewrite T; exact W].
-    destruct (th =? tid s); [rewrite T; exact W|]. destruct (th =? nthreads s); exact W.
+    destruct (th =? tid s); [rewrite T; exact W|]. exact W.
   - unfold step_tick. destruct (pop_chosen _ _ _ _ _) as [pd ok]. exact W.
   - apply fib_ins_wf, W.
   - apply fib_rem_wf, W.
@@ -493,7 +493,7 @@ Proof.
         unfold send_data in Ho. destruct (get_face _ (ir_face y)); [|destruct Ho].
         destruct (negb (f_local f0) && code_localhost (d_name d)); [destruct Ho|]. destruct Ho as [<-|[]]. reflexivity. }
       destruct (data_token (d_tok d)) as [[th tk]|]; [|rewrite T; reflexivity].
-      destruct (th =? tid pre); [rewrite T; reflexivity|]. destruct (th =? nthreads pre); reflexivity.
+      destruct (th =? tid pre); [rewrite T; reflexivity|]. reflexivity.
     + cbn [step]. unfold step_tick. destruct (pop_chosen _ _ _ _ _); reflexivity.
     + cbn. destruct n; reflexivity.
   - eapply IH; [|exact Hin]. apply step_fib_wf, W.
